@@ -7,7 +7,8 @@ package tubes
 // The first family (zz_verif_c09_test.go) has at most six workers, so at most six tubes are ever waiting to be
 // accepted. Here one side or both open up to ~280 tubes of both kinds at once (a side owns 128 reliable and 128
 // unreliable identifiers), spread over concurrent creators, while the other side's application has not started to call
-// Accept yet and is slow when it does. The network is faithful (fixed delay, nothing lost, duplicated or reordered) and
+// Accept yet and is slow when it does. The network is faithful (fixed delay, nothing lost, duplicated or reordered; its
+// one fault, in one case in three: now and then a datagram arrives 1-4 bytes short - see c09bCase.TruncPm) and
 // NO identifier is ever reused: no tube is closed before the verdict. The family therefore never meets the open
 // protocol-level findings of the first family (they all need identifier reuse), uses signatures of its own
 // (...:burst-of-opens...) and leaves the attribution scheme of the first family alone.
@@ -59,6 +60,12 @@ type c09bCase struct {
 	// network delivers one more copy of every answer to an open request (RESP datagram) it carried: duplicates that
 	// outlived their tubes.
 	CloseAll bool `json:"closeall,omitempty"`
+	// TruncPm[d] > 0: the one fault of this family's network. In direction d (0: A -> B) a datagram arrives, with this
+	// probability in per mille, with its last 1..4 bytes missing. To a correct receiver that is a lost datagram (shorter
+	// than its own length field says, or than a header): open requests and data are retransmitted, an unreliable
+	// message may be lost, no identifier is reused because of it - every clause of the family stays as it is (the
+	// network log counts whole deliveries only).
+	TruncPm [2]int `json:"truncpm,omitempty"`
 }
 
 const c09bAcceptQueue = 128 // capacity of the muxer's accept queue: more pending tubes than this make the receiver wait
@@ -434,9 +441,9 @@ func c09bScenario(c c09bCase, v *vlib.Verdict) {
 		return
 	}
 	r := &c09bRun{c: c, v: v, opened: map[c09bKey]*c09bTube{}, offers: map[c09bKey][]c09bOffer{}, reqSeen: map[c09bKey]bool{}}
-	// faithful network with a receive queue that is never the bottleneck (open requests are retransmitted every
+	// faithful network (but for truncated datagrams, c09bCase.TruncPm) with a receive queue that is never the bottleneck (open requests are retransmitted every
 	// 333 ms for as long as the accepting side's receiver waits for its application)
-	n := memconn.New(memconn.Params{DelayMs: c.DelayMs[0]}, memconn.Params{DelayMs: c.DelayMs[1]}, 1<<17)
+	n := memconn.New(memconn.Params{DelayMs: c.DelayMs[0], Seed: c.Seed, HealMs: -1, TruncPm: c.TruncPm[0], TruncMax: 4}, memconn.Params{DelayMs: c.DelayMs[1], Seed: c.Seed, HealMs: -1, TruncPm: c.TruncPm[1], TruncMax: 4}, 1<<17)
 	n.LogCap = 0
 	r.p = &vPair{Net: n}
 	n.OnSend = func(dir int, pkt []byte, sent time.Duration, dlv []time.Duration) {
@@ -497,7 +504,7 @@ func c09bScenario(c c09bCase, v *vlib.Verdict) {
 				miss++
 			}
 		}
-		r.failLocked("C09:tube-never-offered:burst-of-opens:"+c09bClass(t.key.rel), "%v (its tube #%d, type %d, created at %v) was never offered by Accept on side %d within %v although its open request reached that side over a faithful network and no identifier was ever reused; %d of %d opened tubes are missing this way", t.key, t.seq, t.typ, t.at, 1-t.key.opener, bound, miss, len(r.opened))
+		r.failLocked("C09:tube-never-offered:burst-of-opens:"+c09bClass(t.key.rel), "%v (its tube #%d, type %d, created at %v) was never offered by Accept on side %d within %v although its open request reached that side whole and no identifier was ever reused; %d of %d opened tubes are missing this way", t.key, t.seq, t.typ, t.at, 1-t.key.opener, bound, miss, len(r.opened))
 	}
 	r.mu.Unlock()
 	if v.OK() && overflow == 0 {
@@ -533,6 +540,9 @@ func c09bScenario(c c09bCase, v *vlib.Verdict) {
 	}
 	if total > 128 {
 		v.Label("tubes>128")
+	}
+	if n.Stats.Truncated[0]+n.Stats.Truncated[1] > 0 {
+		v.Label("datagrams-delivered-truncated")
 	}
 	if v.OK() && overflow == 0 {
 		if c.Abort[0]+c.Abort[1] > 0 {
@@ -611,6 +621,12 @@ func c09bGen(t *rapid.T) c09bCase {
 			c.Abort[s] = rapid.SampledFrom([]int{0, 1, 3, 20}).Draw(t, fmt.Sprintf("s%dabort", s))
 		}
 		c.CloseAll = rapid.Bool().Draw(t, "closeall")
+	}
+	// one case in three: datagrams arrive truncated now and then (see c09bCase.TruncPm)
+	if rapid.IntRange(0, 2).Draw(t, "truncated") == 0 {
+		for s := 0; s < 2; s++ {
+			c.TruncPm[s] = rapid.SampledFrom([]int{0, 2, 10, 30}).Draw(t, fmt.Sprintf("s%dtruncpm", s))
+		}
 	}
 	return c
 }
